@@ -29,7 +29,8 @@ Fixpoint enc_lines (k : nat) (zlin lines : Z) (ipos : list Z) (irem : Z) (st : e
 Definition armor (lb : Z) (payload : list Z) : list Z :=
   let input_size := len payload in
   let lines := enc_base64_lines input_size in
-  enc_lines (Z.to_nat lines) 0 lines payload input_size e_init (u8 lb).
+  if lines =? 0 then [0]                                  (* opos[0] = '\0'; the loop does not run *)
+  else enc_lines (Z.to_nat lines) 0 lines payload input_size e_init (u8 lb).
 
 (* sc_io_encode_zlib (data, out, level, line_break_character) with `compress` for the deflate stage *)
 Definition sc_encode_with (compress : list Z -> list Z) (lb : Z) (d : list Z) : list Z :=
